@@ -1,9 +1,158 @@
-(* C01 placeholder: replaced below once the proofs exist *)
+(* C01 — BGZF write/read is the identity and every emitted file is well-formed BGZF.
+   Property theorems only; each is closed by [exact] of a lemma of theories/Bgzf/*Proofs.v.
+   Models: NV.Bgzf.Writer (io/writer.rs, deflate.rs::encode), NV.Bgzf.Frame (io/writer/frame.rs,
+   io/reader/frame.rs), NV.Bgzf.Reader (io/reader.rs read_to_end), NV.Bgzf.Crc32.
+   DEFLATE is external: [deflate] / [inflate] are universally quantified functions constrained by
+   the three hypotheses below (validated on every block of every case by the harness). *)
 From Coq Require Import List NArith.
-From NV Require Import Base.LE Bgzf.Crc32 Bgzf.Frame Bgzf.Writer Bgzf.Reader.
+From NV Require Import Base.LE Bgzf.Crc32 Bgzf.Crc32Proofs Bgzf.Frame Bgzf.FrameProofs
+  Bgzf.Writer Bgzf.Reader Bgzf.ReaderProofs Bgzf.WriterProofs.
 Import ListNotations.
 Open Scope N_scope.
 
-Theorem c01_eof_crc : crc32 [] = 0.
-Proof. vm_compute. reflexivity. Qed.
-Print Assumptions c01_eof_crc.
+(* level 0 expands a staging buffer (<= 65495 bytes) by at most 15 bytes *)
+Definition H_l0 (deflate : N -> list N -> list N) : Prop :=
+  forall x, lenN x <= 65495 -> lenN (deflate 0 x) <= 65510.
+(* inflating what deflate produced, into a buffer of the original length, gives the original *)
+Definition H_rt (deflate : N -> list N -> list N) (inflate : list N -> N -> option (list N)) : Prop :=
+  forall l x, lenN x <= 65536 -> inflate (deflate l x) (lenN x) = Some x.
+(* the CDATA of the EOF marker (03 00) inflates to the empty string *)
+Definition H_eof (inflate : list N -> N -> option (list N)) : Prop := inflate [3; 0] 0 = Some [].
+
+(* ROUND TRIP.  For every DEFLATE implementation satisfying the hypotheses, every compression
+   level, every script of write / write_all / flush calls (each with its own buffer) and every way
+   of disposing of the writer (finish | try_finish+into_inner | drop | try_finish then drop):
+   read_to_end of a reader over the sink returns exactly the concatenation of the bytes the
+   calls accepted, with result Ok. *)
+Theorem c01_roundtrip :
+  forall deflate lvl, H_l0 deflate ->
+  forall inflate, H_rt deflate inflate -> H_eof inflate ->
+  forall ops e,
+    let o := run_script deflate lvl ops e in
+    reader_read_to_end inflate (o_sink o) = (accepted ops (o_results o), Ok tt).
+Proof. exact writer_reader_roundtrip. Qed.
+Print Assumptions c01_roundtrip.
+
+(* WELL-FORMED OUTPUT.  The sink is the frames of a list of blocks followed by the 28-byte EOF
+   marker (twice for try_finish-then-drop); the blocks are non-empty, at most 65495 bytes, and
+   concatenate to the accepted bytes; each frame is 26 + |cdata| <= 65536 bytes long, its BSIZE
+   field + 1 is its own length, its first 16 bytes are the gzip/BC constants, it parses (by the
+   reader's parse_frame) to its cdata, CRC32 = crc32 block and ISIZE = |block|, and its cdata
+   inflate to the block.  No call fails or panics and finish returns Ok. *)
+Theorem c01_wellformed :
+  forall deflate lvl, H_l0 deflate ->
+  forall inflate, H_rt deflate inflate ->
+  forall ops e,
+    let o := run_script deflate lvl ops e in
+    exists blocks,
+      o_sink o = frames_bytes (map (wframe deflate lvl) blocks)
+                 ++ concat (repeat eof_block (n_eof e)) /\
+      Forall (frame_wf deflate lvl inflate) blocks /\
+      concat blocks = accepted ops (o_results o) /\
+      o_end o = Ok tt /\
+      Forall (fun r => is_ok (fst r)) (o_results o) /\ length (o_results o) = length ops.
+Proof. exact writer_wellformed_full. Qed.
+Print Assumptions c01_wellformed.
+
+(* frame_wf spelled out (so that the statement above can be read without the theories) *)
+Theorem c01_frame_wf_unfold :
+  forall deflate lvl inflate b,
+    frame_wf deflate lvl inflate b <->
+    (let c := enc deflate lvl b in
+     let f := frame_bytes c (crc32 b) (lenN b) in
+     b <> [] /\ lenN b <= 65495 /\ lenN f = 26 + lenN c /\ lenN f <= 65536 /\
+     bsize_of f + 1 = lenN f /\
+     firstn 16 f = [31; 139; 8; 4; 0; 0; 0; 0; 0; 255; 6; 0; 66; 67; 2; 0] /\
+     parse_frame f = Ok (lenN f, c, crc32 b, lenN b) /\
+     inflate c (lenN b) = Some b).
+Proof. intros deflate lvl inflate b. reflexivity. Qed.
+Print Assumptions c01_frame_wf_unfold.
+
+(* Write::write accepts exactly min(65495 - staged, |buf|) bytes and keeps the invariant *)
+Theorem c01_write_amt :
+  forall deflate lvl, H_l0 deflate ->
+  forall st blocks buf, inv deflate lvl st blocks ->
+    exists st' blocks',
+      let amt := N.min (65495 - lenN (w_staging st)) (lenN buf) in
+      write deflate lvl st buf = (st', Ok amt) /\ inv deflate lvl st' blocks' /\
+      content st' blocks' = content st blocks ++ firstn (N.to_nat amt) buf.
+Proof. exact write_inv. Qed.
+Print Assumptions c01_write_amt.
+
+(* deflate.rs::encode never reaches unreachable!() for a staging buffer *)
+Theorem c01_no_unreachable :
+  forall deflate lvl, H_l0 deflate ->
+  forall x, lenN x <= 65495 -> encode deflate lvl x = Ok (enc deflate lvl x, crc32 x).
+Proof. exact encode_ok. Qed.
+Print Assumptions c01_no_unreachable.
+
+(* EOF marker: 28 bytes, the frame of the empty block with CDATA 03 00, accepted by the reader's
+   frame parser, and read as the empty stream *)
+Theorem c01_eof :
+  length eof_block = 28%nat /\
+  eof_block = frame_bytes [3; 0] (crc32 []) (lenN (@nil N)) /\
+  parse_frame eof_block = Ok (28, [3; 0], 0, 0) /\
+  bsize_of eof_block + 1 = 28 /\
+  forall inflate, H_eof inflate -> reader_read_to_end inflate eof_block = ([], Ok tt).
+Proof.
+  split; [exact eof_block_length|]. split; [exact eof_block_is_frame|].
+  split; [exact parse_frame_eof|]. split; [reflexivity|]. exact read_eof_block.
+Qed.
+Print Assumptions c01_eof.
+
+(* BSIZE arithmetic for every cdata length: write_frame succeeds iff |cdata| <= 65510, and then
+   the BSIZE field (bytes 16,17, little endian) + 1 equals the frame length 26 + |cdata|; a longer
+   cdata leaves the 16 fixed header bytes in the sink and fails with InvalidInput *)
+Theorem c01_bsize :
+  forall c crc isz,
+    (lenN c <= 65510 -> isz <= 4294967295 ->
+       write_frame c crc isz = (frame_bytes c crc isz, Ok (26 + lenN c)) /\
+       bsize_of (frame_bytes c crc isz) + 1 = lenN (frame_bytes c crc isz) /\
+       lenN (frame_bytes c crc isz) = 26 + lenN c) /\
+    (65510 < lenN c -> write_frame c crc isz = (header_prefix, Err InvalidInput)).
+Proof.
+  intros c crc isz. split.
+  - intros Hc Hi. split; [exact (write_frame_ok c crc isz Hc Hi)|].
+    split; [exact (bsize_of_frame c crc isz Hc)|exact (frame_bytes_lenN c crc isz)].
+  - exact (write_frame_too_large c crc isz).
+Qed.
+Print Assumptions c01_bsize.
+
+(* the reader on any concatenation of well-formed frames returns the concatenation of the blocks *)
+Theorem c01_reader_frames :
+  forall inflate fs, Forall (good_frame inflate) fs ->
+    reader_read_to_end inflate (frames_bytes fs) = (concat (map fst fs), Ok tt).
+Proof. exact reader_read_to_end_frames. Qed.
+Print Assumptions c01_reader_frames.
+
+Theorem c01_crc32_bound : forall l, crc32 l < 4294967296.
+Proof. exact crc32_bound. Qed.
+Print Assumptions c01_crc32_bound.
+
+(* ---- non-vacuity: the three hypotheses are jointly satisfiable, and a concrete script ---- *)
+Definition toy_deflate (_ : N) (x : list N) : list N := 1 :: x.
+Definition toy_inflate (c : list N) (n : N) : option (list N) :=
+  match c with
+  | 1 :: d => if lenN d =? n then Some d else None
+  | [3; 0] => if n =? 0 then Some [] else None
+  | _ => None
+  end.
+
+Example c01_hypotheses_satisfiable :
+  H_l0 toy_deflate /\ H_rt toy_deflate toy_inflate /\ H_eof toy_inflate.
+Proof.
+  split; [|split].
+  - intros x Hx. unfold toy_deflate. rewrite lenN_cons. apply N.le_trans with (1 + 65495).
+    + apply N.add_le_mono_l. exact Hx.
+    + discriminate.
+  - intros l x _. unfold toy_deflate, toy_inflate. rewrite N.eqb_refl. reflexivity.
+  - reflexivity.
+Qed.
+
+Example c01_example :
+  let o := run_script toy_deflate 6
+             [OWrite [110; 111]; OFlush; OFlush; OWriteAll [111; 100; 108; 101; 115]] ETryFinishDrop in
+  o_results o = [(Ok (Some 2), Ok 2); (Ok None, Ok 1900544); (Ok None, Ok 1900544); (Ok None, Ok 1900549)] /\
+  o_end o = Ok tt /\ o_pos o = Some 89 /\ lenN (o_sink o) = 117 /\
+  reader_read_to_end toy_inflate (o_sink o) = ([110; 111; 111; 100; 108; 101; 115], Ok tt).
+Proof. vm_compute. repeat split; reflexivity. Qed.
